@@ -18,7 +18,21 @@ if ! $GO test -c -vet=off -tags verif -o "$bin" ./cmd/simcheck 2> "bin/build.$$.
   exit 2
 fi
 rm -f "bin/build.$$.log"
-"./$bin" run "$prop" --tier "$tier" "$@"
+# Engine F phase (properties that have one): instrument a scratch copy of /repo and build against it.
+# If that build is not possible (for instance the tree under test contains a construct the rewriter
+# does not handle) the phase is skipped and the check says so; it is never an alarm.
+fbin=""
+case "$prop" in
+  C06|C16|C20)
+    fbin="$PWD/bin/simcheck-f.$$"
+    if ! ../tools/build_f.sh "$fbin" > "bin/buildf.$$.log" 2>&1; then
+      echo "engine F build not available:"; sed 's/^/  /' "bin/buildf.$$.log" | tail -15
+      rm -f "$fbin"; fbin=""
+    fi
+    rm -f "bin/buildf.$$.log"
+    ;;
+esac
+VERIF_F_BIN="$fbin" "./$bin" run "$prop" --tier "$tier" "$@"
 rc=$?
-rm -f "$bin"
+rm -f "$bin" "$fbin"
 exit $rc
